@@ -148,6 +148,12 @@ def run(tier, seed):
     # the bound needs no kernel search, so half of the bound games may trade down to 8 men (promotions, long pawn paths)
     g3, f3 = os.path.join(wd, "games3.txt"), os.path.join(wd, "fens3.txt")
     vlib.sh([hp, "games", str(seed + 6000), str(sz["bound_games"]), g3, f3, "8"], timeout=900)
+    # games built around one promotion (every piece type, both colours, runner set-ups incl. the fianchetto corner)
+    g5, f5 = os.path.join(wd, "games5.txt"), os.path.join(wd, "fens5.txt")
+    pp = vlib.sh([hp, "promogames", str(seed + 7000), str(sz["bound_games"]), g5, f5], timeout=900)
+    if pp.returncode != 0:
+        raise vlib.ToolFailure("h_proof promogames: " + pp.stderr[-300:])
+    rep.cov["promotion_games"] = json.loads(pp.stdout.strip().split("\n")[-1])
     # many more games for the deadlock rules only (a king without a free square that moves a little later, no capture in between)
     g4, f4 = os.path.join(wd, "games4.txt"), os.path.join(wd, "fens4.txt")
     kpjobs = []
@@ -162,7 +168,7 @@ def run(tier, seed):
         return out, (json.loads(pb.stdout.strip().split("\n")[-1]) if pb.returncode == 0 else {"error": pb.stderr[-300:]})
     kp_res = vlib.pmap(kp, kpjobs)
     # split the games over several processes
-    glines = open(g2).read().strip().split("\n") + open(g3).read().strip().split("\n")
+    glines = open(g2).read().strip().split("\n") + open(g3).read().strip().split("\n") + open(g5).read().strip().split("\n")
     nproc = 12
     files = [tr] + kfiles
     jobs = []
